@@ -29,10 +29,13 @@ use crate::zonetree::StoredName;
 use crate::zonetree::types::{
     InMemoryZoneDiff, InMemoryZoneDiffBuilder, ZoneCut,
 };
+use crate::zonetree::walk::WalkState;
 use crate::zonetree::{Rrset, SharedRr};
 use crate::zonetree::{SharedRrset, WritableZone, WritableZoneNode};
 
-use super::nodes::{Special, ZoneApex, ZoneNode};
+use super::nodes::{
+    NodeChildren, NodeRrsets, Special, ZoneApex, ZoneNode,
+};
 use super::versioned::{Version, VersionMarker};
 
 //------------ WriteZone -----------------------------------------------------
@@ -451,96 +454,66 @@ impl WriteNode {
 
         trace!("Updating RRset");
         if let Some((owner, diff)) = &self.diff {
-            let current_rrset = if let Some(current_rrset) = rrsets
-                .get(new_rrset.rtype(), self.zone.last_published_version())
-            {
-                let changed = new_rrset != current_rrset;
+            // The RRset may be written several times before the commit
+            // (e.g. one record at a time), so work out the difference
+            // between the published RRset and the new RRset from scratch
+            // each time and replace whatever was recorded before.
+            let rtype = new_rrset.rtype();
+            let published = rrsets
+                .get(rtype, self.zone.last_published_version())
+                .filter(|rrset| !rrset.is_empty());
+            let mut diff = diff.lock().unwrap();
 
-                if changed && !current_rrset.is_empty() {
-                    Some(current_rrset)
+            if let Some(published) = published {
+                // A change of the TTL changes every record of the RRset.
+                let ttl_changed = published.ttl() != new_rrset.ttl();
+
+                let mut removed_rrs = Rrset::new(rtype, published.ttl());
+                for removed_rr in published.data().iter().filter(|rr| {
+                    ttl_changed || !new_rrset.data().contains(rr)
+                }) {
+                    removed_rrs.push_data(removed_rr.clone());
+                }
+
+                let mut added_rrs = Rrset::new(rtype, new_rrset.ttl());
+                for added_rr in new_rrset.data().iter().filter(|rr| {
+                    ttl_changed || !published.data().contains(rr)
+                }) {
+                    added_rrs.push_data(added_rr.clone());
+                }
+
+                if removed_rrs.is_empty() {
+                    diff.clear_removed(owner, rtype);
                 } else {
-                    None
+                    trace!(
+                        "Diff detected: update of existing RRSET - recording removal of {removed_rrs:#?}"
+                    );
+                    diff.remove(
+                        owner.clone(),
+                        rtype,
+                        SharedRrset::new(removed_rrs),
+                    );
                 }
+
+                if added_rrs.is_empty() {
+                    diff.clear_added(owner, rtype);
+                } else {
+                    trace!(
+                        "Diff detected: update of existing RRSET - recording addition of {added_rrs:#?}"
+                    );
+                    diff.add(
+                        owner.clone(),
+                        rtype,
+                        SharedRrset::new(added_rrs),
+                    );
+                }
+            } else if new_rrset.is_empty() {
+                diff.clear_added(owner, rtype);
             } else {
-                None
-            };
-
-            match (current_rrset.is_some(), !new_rrset.is_empty()) {
-                (true, true) => {
-                    trace!(
-                        "Diff detected: update of existing RRSET - recording change of RRSET from {current_rrset:?} to {new_rrset:#?}"
-                    );
-
-                    // Check each resource record in the RRset being updated
-                    // to see if it is missing from the new RRSet.
-                    let new_rrs = new_rrset.as_rrset().data();
-                    let mut removed_rrs =
-                        Rrset::new(new_rrset.rtype(), new_rrset.ttl());
-                    for removed_rr in current_rrset
-                        .as_ref()
-                        .unwrap()
-                        .as_rrset()
-                        .data()
-                        .iter()
-                        .filter(|rr| !new_rrs.contains(rr))
-                    {
-                        removed_rrs.push_data(removed_rr.clone());
-                    }
-
-                    if !removed_rrs.is_empty() {
-                        diff.lock().unwrap().remove(
-                            owner.clone(),
-                            new_rrset.rtype(),
-                            SharedRrset::new(removed_rrs),
-                        );
-                    }
-
-                    // Check each resource record in the new RRset to see if
-                    // it is missing from the RRset being updated.
-                    let old_rrs =
-                        current_rrset.as_ref().unwrap().as_rrset().data();
-                    let mut added_rrs =
-                        Rrset::new(new_rrset.rtype(), new_rrset.ttl());
-                    for added_rr in new_rrset
-                        .as_rrset()
-                        .data()
-                        .iter()
-                        .filter(|rr| !old_rrs.contains(rr))
-                    {
-                        added_rrs.push_data(added_rr.clone());
-                    }
-
-                    if !added_rrs.is_empty() {
-                        diff.lock().unwrap().add(
-                            owner.clone(),
-                            new_rrset.rtype(),
-                            SharedRrset::new(added_rrs),
-                        );
-                    }
-                }
-                (true, false) => {
-                    trace!(
-                        "Diff detected: update of existing RRSET - recording removal of the current RRSET {current_rrset:#?}"
-                    );
-                    diff.lock().unwrap().remove(
-                        owner.clone(),
-                        new_rrset.rtype(),
-                        current_rrset.unwrap().clone(),
-                    );
-                }
-                (false, true) => {
-                    trace!(
-                        "Diff detected: update of existing RRSET - recording addition of new RRSET {new_rrset:#?}"
-                    );
-                    diff.lock().unwrap().add(
-                        owner.clone(),
-                        new_rrset.rtype(),
-                        new_rrset.clone(),
-                    );
-                }
-                (false, false) => {
-                    // NOOP
-                }
+                trace!(
+                    "Diff detected: recording addition of new RRSET {new_rrset:#?}"
+                );
+                diff.add(owner.clone(), rtype, new_rrset.clone());
             }
         }
 
@@ -568,17 +541,20 @@ impl WriteNode {
         };
 
         if let Some((owner, diff)) = &self.diff {
-            if let Some(removed) =
-                rrsets.get(rtype, self.zone.last_published_version())
+            let mut diff = diff.lock().unwrap();
+
+            // Whatever was written to this RRset since the last commit is
+            // gone now.
+            diff.clear_added(owner, rtype);
+
+            if let Some(removed) = rrsets
+                .get(rtype, self.zone.last_published_version())
+                .filter(|rrset| !rrset.is_empty())
             {
                 trace!(
                     "Diff detected: removal of existing RRSET: {removed:#?}"
                 );
-                diff.lock().unwrap().remove(
-                    owner.clone(),
-                    rtype,
-                    removed.clone(),
-                );
+                diff.remove(owner.clone(), rtype, removed.clone());
             }
         }
 
@@ -625,6 +601,34 @@ impl WriteNode {
     }
 
     fn remove_all(&self) -> Result<(), io::Error> {
+        if let Some((owner, diff)) = &self.diff {
+            // Everything published at and below this node goes away, and so
+            // does everything written there since the last commit.
+            diff.lock().unwrap().clear_added_at_or_below(owner);
+            let version = self.zone.last_published_version();
+            match self.node {
+                Either::Left(ref apex) => Self::record_removal_of_subtree(
+                    apex.rrsets(),
+                    apex.children(),
+                    owner,
+                    version,
+                    diff,
+                ),
+                Either::Right(ref node) => {
+                    Self::record_removal_of_special(
+                        node, owner, version, diff,
+                    );
+                    Self::record_removal_of_subtree(
+                        node.rrsets(),
+                        node.children(),
+                        owner,
+                        version,
+                        diff,
+                    )
+                }
+            }
+        }
+
         match self.node {
             Either::Left(ref apex) => {
                 apex.remove_all(self.zone.new_version);
@@ -635,6 +639,89 @@ impl WriteNode {
         }
 
         Ok(())
+    }
+
+    /// Records the removal of all RRsets published at and below a node.
+    fn record_removal_of_subtree(
+        rrsets: &NodeRrsets,
+        children: &NodeChildren,
+        owner: &StoredName,
+        version: Version,
+        diff: &Arc<Mutex<InMemoryZoneDiffBuilder>>,
+    ) {
+        for (rtype, rrset) in rrsets.iter().iter() {
+            if let Some(rrset) =
+                rrset.get(version).filter(|rrset| !rrset.is_empty())
+            {
+                diff.lock().unwrap().remove(
+                    owner.clone(),
+                    *rtype,
+                    rrset.clone(),
+                );
+            }
+        }
+
+        children.walk(WalkState::DISABLED, |_, (label, node)| {
+            let mut builder = NameBuilder::new_bytes();
+            builder.append_label(label.as_slice()).unwrap();
+            let child_owner = builder.append_origin(owner).unwrap();
+            Self::record_removal_of_special(
+                node,
+                &child_owner,
+                version,
+                diff,
+            );
+            Self::record_removal_of_subtree(
+                node.rrsets(),
+                node.children(),
+                &child_owner,
+                version,
+                diff,
+            );
+        });
+    }
+
+    /// Records the removal of the records published via a zone cut or CNAME.
+    fn record_removal_of_special(
+        node: &ZoneNode,
+        owner: &StoredName,
+        version: Version,
+        diff: &Arc<Mutex<InMemoryZoneDiffBuilder>>,
+    ) {
+        node.with_special(version, |special| match special {
+            Some(Special::Cut(cut)) => {
+                let mut diff = diff.lock().unwrap();
+                diff.remove(owner.clone(), cut.ns.rtype(), cut.ns.clone());
+                if let Some(ds) = &cut.ds {
+                    diff.remove(owner.clone(), ds.rtype(), ds.clone());
+                }
+                let mut glue: Vec<(StoredName, Rrset)> = vec![];
+                for rec in &cut.glue {
+                    match glue.iter_mut().find(|(owner, rrset)| {
+                        owner == rec.owner() && rrset.rtype() == rec.rtype()
+                    }) {
+                        Some((_, rrset)) => {
+                            rrset.push_data(rec.data().clone())
+                        }
+                        None => glue
+                            .push((rec.owner().clone(), rec.clone().into())),
+                    }
+                }
+                for (owner, rrset) in glue {
+                    diff.remove(owner, rrset.rtype(), SharedRrset::new(rrset));
+                }
+            }
+            Some(Special::Cname(cname)) => {
+                let mut rrset = Rrset::new(Rtype::CNAME, cname.ttl());
+                rrset.push_data(cname.data().clone());
+                diff.lock().unwrap().remove(
+                    owner.clone(),
+                    Rtype::CNAME,
+                    SharedRrset::new(rrset),
+                );
+            }
+            _ => {}
+        });
     }
 
     /// Makes sure a NXDomain special is set or removed as necesssary.
